@@ -159,8 +159,9 @@ def run(ctx):
         'programs that call force_reraise()/capture() themselves are executed and compared on what propagates and how often '
         'the logger is called, but the traceback clause is asserted only for bodies that do not',
     ]
-    cfg = 'MC_ExcHelpers_4.cfg' if quick else 'MC_ExcHelpers_5.cfg'
-    res = tlc.run('MC_ExcHelpers', cfg, workdir=ctx.work, workers=4, coverage=True)
+    cfg = 'MC_ExcHelpers_4.cfg' if quick else 'MC_ExcHelpers_6.cfg'
+    res = tlc.run('MC_ExcHelpers', cfg, workdir=ctx.work, workers=8, coverage=True,
+                  stdout_path=os.path.join(ctx.work, 'exc.out'), timeout=3000)
     ctx.tlc(res, 'ExcHelpers: all handler-body programs (%s)' % cfg)
     if res.coverage.get('Step', (0, 0))[1] == 0 or res.coverage.get('End', (0, 0))[1] == 0:
         raise MachineryError('vacuity: Step/End never taken')
